@@ -66,23 +66,33 @@ def install(w):
         w.contract(f"{V}.{cls}.__call__", params={"input_obj": "ty"},
                    requires=["kind_is(input_obj, 'INPUT_OBJECT')"],
                    ensures=["ghost('errs') >= old(ghost('errs'))"], raises=[],
-                   ghost_modifies=["errs"], assumed=True)
+                   ghost_modifies=["errs"], ghost_calls=["dcirc_calls"], assumed=True)
         w.contract(f"{V}.{cls}.__init__", params={"context": "opaque"}, ensures=[], raises=[],
                    assumed=True)
     MONO = ["ghost('errs') >= old(ghost('errs'))"]
 
     w.contract(f"{CTX}.validate_name", params={"node": "ref:GraphQLDirective", "name": "opt:str"},
-               ensures=MONO, props={"C20"}, **NEVER)
+               # reserved names: exactly a name that begins with two underscores is reported
+               ensures=MONO + [
+                   "(ghost('errs') == old(ghost('errs')) + ite(name.startswith('__'), 1, 0)) if name else True",
+                   "(ghost('errs') == old(ghost('errs')) + ite(node.name.startswith('__'), 1, 0))"
+                   " if name is None else True"],
+               ghost_calls=["name_calls"], props={"C20"}, **NEVER)
     w.contract(f"{CTX}.validate_one_of_input_object_field",
                params={"type_": "ty", "field_name": "str", "field": "ref:GraphQLInputField"},
                ensures=MONO + [
                    # reports exactly when the OneOf restrictions are violated
                    "(ghost('errs') > old(ghost('errs'))) == (NonNull(field.type)"
-                   " or field.default is not None or not is_undefined(field.default_value))"],
+                   " or field.default is not None or not is_undefined(field.default_value))",
+                   # one report per violated restriction
+                   "ghost('errs') == old(ghost('errs')) + ite(NonNull(field.type), 1, 0)"
+                   " + ite(field.default is not None or not is_undefined(field.default_value), 1, 0)"],
                props={"C20"}, **NEVER)
     w.contract(f"{CTX}.validate_default_value",
                params={"input_value": "ref:GraphQLArgument", "arg_str": "str"},
-               ensures=MONO, props={"C20"}, **NEVER)
+               # nothing is reported for a position without a default value
+               ensures=MONO + ["implies(input_value.default is None, ghost('errs') == old(ghost('errs')))"],
+               ghost_calls=["dv_calls"], props={"C20"}, **NEVER)
     w.contract(f"{V}.validate_default_input",
                params={"default_input": "ref:GraphQLDefaultInput", "input_type": "ty",
                        "on_error": ("callback", "cb"), "hide_suggestions": "bool"},
@@ -129,25 +139,151 @@ def install(w):
         extra = {}
         if m == "validate_type_implements_interface":
             # per-iteration contracts of the two argument loops (reports <=> the rule is violated)
+            SUBT = "ite(not Sub(self.schema, type_field.type, iface_field.type), 1, 0)"
+            DEPR = ("ite(type_field.deprecation_reason is not None"
+                    " and iface_field.deprecation_reason is None, 1, 0)")
+            E_, E0_ = "ghost('errs')", "at_iter_start(ghost('errs'))"
             extra["loops"] = {
-                2: {"step_post": [
+                # per interface field: a missing field is reported (once, nothing else); a present
+                # field is reported when its type is no subtype (covariance) and when it is
+                # deprecated while the interface field is not - in addition to the argument rules
+                1: {"iter_post": [
+                    f"implies(not omap_has(type_fields, field_name), {E_} == {E0_} + 1)",
+                    f"implies(omap_has(type_fields, field_name), {E_} >= {E0_} + {SUBT} + {DEPR})"]},
+                2: {"invariant": [f"{E_} >= {E0_} + {SUBT}"],
+                    "step_post": [
                     # an interface argument must exist on the field with an equal type
                     "ghost('errs') == at_iter_start(ghost('errs')) + ite("
                     "not omap_has(type_field.args, arg_name)"
                     " or not EqT(iface_arg.type, omap_at(type_field.args, arg_name).type), 1, 0)"]},
-                3: {"step_post": [
+                3: {"invariant": [f"{E_} >= {E0_} + {SUBT}"],
+                    "step_post": [
                     # an additional argument must not be required
                     "ghost('errs') == at_iter_start(ghost('errs')) + ite("
                     "not omap_has(iface_field.args, arg_name) and Required(type_arg), 1, 0)"]},
             }
+        E, E0 = "ghost('errs')", "at_iter_start(ghost('errs'))"
+        NAME1 = "ite({0}.startswith('__'), 1, 0)"
+        ARG_STEP = ("ite(not InputTy(arg.type), 1, 0)"
+                    " + ite(Required(arg) and arg.deprecation_reason is not None, 1, 0)")
+        if m == "validate_fields":
+            # per field: the name rule, the output-type rule; per argument: the name rule, the
+            # input-type rule, "a required argument cannot be deprecated", and the default value is
+            # validated (one call); without a default the count is exact, with one it is a lower bound
+            extra["loops"] = {
+                1: {"invariant": [f"{E} >= old({E}) + ite(len(fields) == 0, 1, 0)"],
+                    "step_post": [
+                        f"{E} >= {E0} + " + NAME1.format("field_name") + " + ite(not OutputTy(field.type), 1, 0)",
+                        "ghost('name_calls') >= at_iter_start(ghost('name_calls')) + 1"]},
+                2: {"invariant": [
+                        f"{E} >= {E0} + " + NAME1.format("field_name") + " + ite(not OutputTy(field.type), 1, 0)",
+                        "ghost('name_calls') >= at_iter_start(ghost('name_calls')) + 1"],
+                    "step_post": [
+                        f"{E} >= {E0} + " + NAME1.format("arg_name") + " + " + ARG_STEP,
+                        f"implies(arg.default is None and len(arg_name) > 0, {E} == {E0} + " + NAME1.format("arg_name") + " + " + ARG_STEP + ")",
+                        "ghost('dv_calls') == at_iter_start(ghost('dv_calls')) + 1"]}}
+        if m == "validate_input_fields":
+            FIELD_STEP = ("ite(not InputTy(field.type), 1, 0)"
+                          " + ite(RequiredField(field) and field.deprecation_reason is not None, 1, 0)")
+            ONE_OF = ("ite(input_obj.is_one_of and NonNull(field.type), 1, 0)"
+                      " + ite(input_obj.is_one_of and (field.default is not None"
+                      " or not is_undefined(field.default_value)), 1, 0)")
+            extra["loops"] = {1: {
+                "invariant": [f"{E} >= old({E}) + ite(len(fields) == 0, 1, 0)"],
+                "step_post": [
+                    f"{E} >= {E0} + " + NAME1.format("field_name") + " + " + FIELD_STEP + " + " + ONE_OF,
+                    f"implies(field.default is None and len(field_name) > 0, {E} == {E0} + "
+                    + NAME1.format("field_name") + " + " + FIELD_STEP + " + " + ONE_OF + ")",
+                    "ghost('dv_calls') == at_iter_start(ghost('dv_calls')) + 1"]}}
+        if m == "validate_enum_values":
+            extra["loops"] = {1: {
+                "invariant": [f"{E} >= old({E}) + ite(len(enum_values) == 0, 1, 0)"],
+                "step_post": [f"implies(len(value_name) > 0, {E} == {E0} + " + NAME1.format("value_name") + ")"]}}
+        if m == "validate_directives":
+            extra["loops"] = {
+                1: {"step_post": [
+                    f"{E} >= {E0} + " + NAME1.format("directive.name") + " + ite(len(directive.locations) == 0, 1, 0)"]},
+                2: {"invariant": [
+                    f"{E} >= {E0} + " + NAME1.format("directive.name") + " + ite(len(directive.locations) == 0, 1, 0)"],
+                    "step_post": [
+                        f"{E} >= {E0} + " + NAME1.format("arg_name") + " + " + ARG_STEP,
+                        f"implies(arg.default is None and len(arg_name) > 0, {E} == {E0} + "
+                        + NAME1.format("arg_name") + " + " + ARG_STEP + ")",
+                        "ghost('dv_calls') == at_iter_start(ghost('dv_calls')) + 1"]}}
+        if m == "validate_interfaces":
+            # per listed interface: a non-interface is reported; implementing itself is reported; a
+            # repeated interface is reported; otherwise the two conformance checks are made once each
+            extra["locals"] = {"iface_type_names": ("nameset", "iface_names")}
+            SEEN = "at_iter_start(ns_has(iface_type_names, iface.name))"
+            extra["loops"] = {1: {"iter_post": [
+                f"implies(not kind_is(iface, 'INTERFACE'), {E} == {E0} + 1)",
+                f"implies(kind_is(iface, 'INTERFACE') and {SEEN}, {E} == {E0} + 1 + ite(type_ is iface, 1, 0))",
+                f"implies(kind_is(iface, 'INTERFACE') and not {SEEN}, {E} >= {E0} + ite(type_ is iface, 1, 0)"
+                " and ghost('anc_calls') == at_iter_start(ghost('anc_calls')) + 1"
+                " and ghost('impl_calls') == at_iter_start(ghost('impl_calls')) + 1"
+                " and ns_has(iface_type_names, iface.name))",
+                "forall_int(k, ns_has_key(iface_type_names, k) == (at_iter_start("
+                "ns_has_key(iface_type_names, k)) or (kind_is(iface, 'INTERFACE')"
+                " and k == mkey(iface.name))))"]}}
+        for mm, gg in (("validate_fields", "vf_calls"), ("validate_interfaces", "vi_calls"),
+                       ("validate_union_members", "vu_calls"), ("validate_enum_values", "ve_calls"),
+                       ("validate_input_fields", "vif_calls")):
+            if m == mm:
+                extra["ghost_calls"] = [gg]
+        if m == "validate_root_types":
+            # a missing query root is reported; every root that is given but is not an object type
+            # is reported (the "roots must differ" rule goes through an abstracted multimap: not decided)
+            ROOTS = " + ".join(
+                f"ite(truthy(self.schema.get_root_type(OperationType.{r})) and not kind_is("
+                f"self.schema.get_root_type(OperationType.{r}), 'OBJECT'), 1, 0)"
+                for r in ("QUERY", "MUTATION", "SUBSCRIPTION"))
+            LOWER = f"{E} >= old({E}) + ite(not truthy(self.schema.query_type), 1, 0) + " + ROOTS
+            extra["ensures_extra"] = [LOWER]
+            extra["loops"] = {2: {"invariant": [LOWER]}}
+        if m == "validate_type_implements_ancestors":
+            extra["ghost_calls"] = ["anc_calls"]
+            # every interface of the interface must be listed by the type itself
+            extra["loops"] = {1: {"step_post": [
+                "ghost('errs') == at_iter_start(ghost('errs')) + ite("
+                "exists(j, 0, len(type_interfaces), type_interfaces[j] is transitive), 0, 1)"]}}
+        if m == "validate_type_implements_interface":
+            extra["ghost_calls"] = ["impl_calls"]
+        if m == "validate_union_members":
+            # one report per member that is not an object type or that names an object type already
+            # included; nothing else is reported in the loop; the set of included names grows by
+            # exactly the object member's name (so, by induction over the loop, it is the set of
+            # names of the object members seen so far)
+            extra["locals"] = {"included_type_names": ("nameset", "union_names")}
+            extra["loops"] = {1: {"step_post": [
+                "ghost('errs') == at_iter_start(ghost('errs')) + ite(not kind_is(member_type, 'OBJECT')"
+                " or at_iter_start(ns_has(included_type_names, member_type.name)), 1, 0)",
+                "implies(kind_is(member_type, 'OBJECT'), ns_has(included_type_names, member_type.name))",
+                "forall_int(k, ns_has_key(included_type_names, k) == (at_iter_start("
+                "ns_has_key(included_type_names, k)) or (kind_is(member_type, 'OBJECT')"
+                " and k == mkey(member_type.name))))"]}}
         if m == "validate_types":
             # the non-null cycle search starts every top-level call with an empty path index
             # (created empty, restored by every call)
+            def CNT(g, n=1):
+                return f"ghost('{g}') == at_iter_start(ghost('{g}')) + {n}"
             extra["loops"] = {1: {"invariant": MONO + [
                 "forall_int(k, not mhas(validate_input_object_non_null_circular_refs."
-                "field_path_index_by_type_name, k))"]}}
+                "field_path_index_by_type_name, k))"],
+                # the dispatch: every kind of type gets exactly its validators, once each; something
+                # that is not a named type is reported and nothing else is done with it
+                "iter_post": [
+                    f"implies(not NamedTy(type_), {E} == {E0} + 1)",
+                    "implies(kind_is(type_, 'OBJECT') or kind_is(type_, 'INTERFACE'), "
+                    + CNT("vf_calls") + " and " + CNT("vi_calls") + ")",
+                    "implies(kind_is(type_, 'UNION'), " + CNT("vu_calls") + ")",
+                    "implies(kind_is(type_, 'ENUM'), " + CNT("ve_calls") + ")",
+                    "implies(kind_is(type_, 'INPUT_OBJECT'), " + CNT("vif_calls") + " and " + CNT("dcirc_calls")
+                    + " and ghost('circ_calls') >= at_iter_start(ghost('circ_calls')) + 1)",
+                    "implies(NamedTy(type_) and not (" + " or ".join(f"same_str(type_.name, '{n}')" for n in NAMES)
+                    + "), ghost('name_calls') >= at_iter_start(ghost('name_calls')) + 1)"]}}
             extra["modifies_maps"] = True
-        w.contract(f"{CTX}.{m}", params=params, requires=req, ensures=MONO, props={"C20"},
+        w.contract(f"{CTX}.{m}", params=params, requires=req,
+                   ensures=MONO + extra.pop("ensures_extra", []), props={"C20"},
                    **dict(NEVER, **({"ghost_modifies": ["errs", "circ_unvisited"]} if m == "validate_types" else {})),
                    **extra)
 
